@@ -348,6 +348,23 @@ pub fn near_miss_names(out: &mut Out, v: &crate::vocab::Vocab, e: &str, rng: &mu
     let mut names: Vec<(String, String)> = Vec::new();
     for k in v.keywords.iter() { if !names.iter().any(|(x, _)| *x == k.name) { names.push((k.name.clone(), k.cls.clone())); } }
     let ph = crate::call::default_placeholder(e);
+    // every name with something else in the place of its opening bracket, the rest of the call left standing (`w*1)`, `max,1,2)`):
+    // a name is a function token only directly before `(`
+    for (name, cls) in &names {
+        for rep in ["*", ")", "+", ",", "⌊", "2", "", "((", "^"] {
+            let rest = match cls.as_str() { "f2" => "2,3)", "fv" | "fa" => "2,3,1)", _ => "1)" };
+            for text in [format!("{}{}{}", name, rep, rest), format!("2+{}{}{}", name, rep, rest)] {
+                if rep == "((" && text.matches('(').count() != text.matches(')').count() + 1 { continue; }
+                let (o, t) = crate::call::call(e, &text, &ph);
+                out.stats.calls += 1;
+                out.note_ticks(&text, &t);
+                let key = h64(&("nobracket", e, &text)); out.stats.distinct.insert(key); out.stats.nontrivial.insert(key);
+                if !o.returned() { out.finding("panic", e, &text, &ph, "Ok or Err", &o.show(), json!({"name_without_bracket": name})); }
+                out.stats.events += 1;
+                out.event(e, &text, &ph, &o, &t, json!({"v": "unclaimed"}), true);
+            }
+        }
+    }
     for i in 0..n {
         out.heartbeat(i as u64);
         out.stats.items += 1;
